@@ -230,9 +230,21 @@ func (c *Ctx) bijectionRule(r *Report, rule string, fn *ssa.Function, rel, iface
 		r.undecided(rule, "anchor "+rel+"."+ifaceName, "-", "anchor does not resolve")
 		return nil, false
 	}
-	cases, _ := c.dispatchTable(fn, ifaceName)
+	cases, dphi := c.dispatchTable(fn, ifaceName)
 	if cases == nil {
 		cases = c.mapDispatchTable(fn, ifaceName)
+	}
+	if dphi != nil {
+		// what the dispatch hands to Unmarshal is a new object holding nothing: a constructor that fills in
+		// defaults, or hands out (a copy of) a kept object, makes the decoded value depend on more than the octets
+		for _, e := range dphi.Edges {
+			mi, ok := e.(*ssa.MakeInterface)
+			if !ok {
+				continue
+			}
+			why := c.freshZeroObject(mi.X, 0)
+			r.Check(why == "", rule, typeKey(mi.X.Type())+": allocated empty", c.InstrPos(mi), "a new object whose fields are zero or new empty objects", "the object the decoder fills is not a new empty one: "+why)
+		}
 	}
 	if cases == nil {
 		r.undecided(rule, c.FuncName(fn)+": dispatch", c.Pos(fn.Pos()), "cannot read a constant -> type dispatch table (a φ of freshly allocated implementers selected by == tests) from the decoder")
@@ -277,7 +289,138 @@ func (c *Ctx) bijectionRule(r *Report, rule string, fn *ssa.Function, rel, iface
 			allOK = false
 		}
 	}
+	// the numbers themselves: the two sides agreeing with each other says nothing about the wire; each type the
+	// reference knows carries the code the RFC assigns to it (an implementer the reference does not know - a type
+	// added later - has no reference code and is only held to the bijection)
+	if ref := dispatchReference[rel+"."+ifaceName]; ref != nil {
+		for _, k := range ks {
+			want, known := ref[typeKey(tab[k])]
+			if !known {
+				continue
+			}
+			if k == want {
+				r.ok(rule, typeKey(tab[k])+" = "+want, c.Pos(fn.Pos()), "the assigned number of the reference table", true)
+			} else {
+				r.bad(rule, typeKey(tab[k])+" = "+want, c.Pos(fn.Pos()), fmt.Sprintf("%s() = %s, the assigned number is %s: the payload is announced under (and dispatched from) a code that is another payload's or nobody's", tagMethod, k, want))
+				allOK = false
+			}
+		}
+	}
 	return cases, allOK
+}
+
+// dispatchAllocEmptyRule: "the outcome is a function of the octets only" for the two dispatching decoders: the
+// object each arm hands to Unmarshal is a new empty one (not a kept object, a copy of one, or one with defaults).
+func (c *Ctx) dispatchAllocEmptyRule(r *Report, rule string) {
+	r.Rule(rule, "every object the payload / EAP method dispatch allocates for Unmarshal is new and empty (zero fields or new empty sub-objects): nothing from an earlier decode or from package state is visible in a decoded value", 16)
+	for _, d := range []struct {
+		fn    *ssa.Function
+		iface string
+	}{{c.Method("message", "IKEPayloadContainer", "Decode"), "IKEPayload"}, {c.Method("eap", "EAP", "Unmarshal"), "EapTypeData"}} {
+		if d.fn == nil {
+			r.undecided(rule, "anchor "+d.iface, "-", "anchor does not resolve")
+			continue
+		}
+		r.Func(c.FuncName(d.fn))
+		_, dphi := c.dispatchTable(d.fn, d.iface)
+		if dphi == nil {
+			r.undecided(rule, c.FuncName(d.fn)+": dispatch", c.Pos(d.fn.Pos()), "cannot read the dispatch (a φ of allocated implementers selected by == tests) from the decoder")
+			continue
+		}
+		for _, e := range dphi.Edges {
+			mi, ok := e.(*ssa.MakeInterface)
+			if !ok {
+				continue
+			}
+			why := c.freshZeroObject(mi.X, 0)
+			r.Check(why == "", rule, typeKey(mi.X.Type())+": allocated empty", c.InstrPos(mi), "a new object whose fields are zero or new empty objects", "the object the decoder fills is not a new empty one: "+why)
+		}
+	}
+}
+
+// freshZeroObject: v is a new allocation whose fields hold nothing but zero values and new allocations of the
+// same kind (directly, or as the result of a module constructor all of whose returns are such). "" or the reason.
+func (c *Ctx) freshZeroObject(v ssa.Value, depth int) string {
+	if depth > 3 {
+		return "constructor nesting too deep to follow"
+	}
+	switch x := v.(type) {
+	case *ssa.Alloc:
+		for _, ref := range *x.Referrers() {
+			switch u := ref.(type) {
+			case *ssa.Store:
+				if u.Addr == ssa.Value(x) {
+					if k, ok := u.Val.(*ssa.Const); !ok || !isZeroConst(k) {
+						return "the whole object is assigned from " + u.Val.String() + " at " + c.InstrPos(u)
+					}
+				}
+			case *ssa.FieldAddr:
+				for _, r2 := range *u.Referrers() {
+					st, ok := r2.(*ssa.Store)
+					if !ok || st.Addr != ssa.Value(u) {
+						continue
+					}
+					if k, ok := st.Val.(*ssa.Const); ok && isZeroConst(k) {
+						continue
+					}
+					if _, ok := st.Val.(*ssa.Alloc); ok {
+						if why := c.freshZeroObject(st.Val, depth+1); why != "" {
+							return why
+						}
+						continue
+					}
+					if call, ok := st.Val.(*ssa.Call); ok && call.Call.StaticCallee() != nil && c.InModule(call.Call.StaticCallee()) {
+						if why := c.freshZeroObject(st.Val, depth+1); why != "" {
+							return why
+						}
+						continue
+					}
+					if _, isK := st.Val.(*ssa.Const); depth == 0 && !isK {
+						// a store by the decoder itself (the inner type of an SK payload, taken from the generic
+						// header): the wire-slot tables account for it
+						continue
+					}
+					return "field " + FieldKey(u.X.Type(), u.Field) + " is preset to " + st.Val.String() + " at " + c.InstrPos(st)
+				}
+			}
+		}
+		return ""
+	case *ssa.Call:
+		cal := x.Call.StaticCallee()
+		if cal == nil || !c.InModule(cal) || len(cal.Blocks) == 0 {
+			return "it comes from a call that is not resolved to a module function"
+		}
+		n := 0
+		for _, b := range cal.Blocks {
+			ret, ok := b.Instrs[len(b.Instrs)-1].(*ssa.Return)
+			if !ok || len(ret.Results) != 1 {
+				continue
+			}
+			n++
+			if why := c.freshZeroObject(ret.Results[0], depth+1); why != "" {
+				return why
+			}
+		}
+		if n == 0 {
+			return "constructor " + c.FuncName(cal) + " has no single-result return"
+		}
+		return ""
+	}
+	return "it is " + v.String() + ", not a new allocation"
+}
+
+// dispatchReference: RFC 7296 section 3.2 (IKEv2 payload types) and RFC 3748 section 5 / RFC 5448 (EAP method types).
+var dispatchReference = map[string]map[string]string{
+	"message.IKEPayload": {
+		"*message.SecurityAssociation": "33", "*message.KeyExchange": "34", "*message.IdentificationInitiator": "35",
+		"*message.IdentificationResponder": "36", "*message.Certificate": "37", "*message.CertificateRequest": "38",
+		"*message.Authentication": "39", "*message.Nonce": "40", "*message.Notification": "41", "*message.Delete": "42",
+		"*message.VendorID": "43", "*message.TrafficSelectorInitiator": "44", "*message.TrafficSelectorResponder": "45",
+		"*message.Encrypted": "46", "*message.Configuration": "47", "*message.PayloadEap": "48",
+	},
+	"eap.EapTypeData": {
+		"*eap.EapIdentity": "1", "*eap.EapNotification": "2", "*eap.EapNak": "3", "*eap.EapAkaPrime": "50", "*eap.EapExpanded": "254",
+	},
 }
 
 // evalExpr evaluates a pure SSA expression tree in which the only non-constant leaf is `leaf`
